@@ -1,1 +1,175 @@
-"""placeholder"""
+"""C13 - rolling logs: no overwrite on roll-over, budget enforced after each write, newest never pruned, lock discipline."""
+
+from __future__ import annotations
+
+import ast
+import re
+
+from . import rule
+from ..model import Unresolved, walk_scope, parent, enclosing_function, qualname, ancestors
+from ..paths import U, Path, Evaluator
+from .. import q
+
+RL = 'openfilter/filter_runtime/rolllog.py'
+STATE = ('logfiles', 'logfiles_size', 'read_idx', 'read_file', 'write_file')
+
+
+def cls_of(repo):
+    return repo.find(f'{RL}::RollLog')
+
+
+def fn_paths(repo, name, **kw):
+    c = repo.__dict__.setdefault('_c13', {})
+    if name not in c:
+        mod, fn = repo.find(f'{RL}::RollLog.{name}')
+        ev = Evaluator(repo, mod, **kw)
+        ev.scope_node = fn
+        c[name] = (mod, fn, ev.run(fn.body))
+    return c[name]
+
+
+@rule('C13.R1', 'a roll-over never overwrites: the file named by new_logfile is opened in exclusive mode, or its timestamp is forced strictly above the newest existing log file before the name is formed')
+def r1(rr, repo):
+    mod, wfn, wpaths = fn_paths(repo, 'write')
+    rr.paths += len(wpaths)
+    opens = {}
+    for p in wpaths:
+        for e in p.events:
+            if e.kind == 'call' and e.term == 'open' and e.args and 'new_logfile(' in e.args[0]:
+                mode = e.args[1] if len(e.args) > 1 else dict(e.kwargs).get('mode', "'r'")
+                opens[id(e.node)] = (e, mode)
+    rr.floor('open() sites of a newly named log file', len(opens), 1, mod, wfn)
+    exclusive = all('x' in m.strip('\'"') for _, m in opens.values()) and bool(opens)
+    nmod, nfn, npaths = fn_paths(repo, 'new_logfile')
+    rr.paths += len(npaths)
+    forced = True
+    detail = []
+    n = 0
+    param = q.func_params(nfn)[1]
+    for p in npaths:
+        o = p.outcome
+        if o is None or o[0] != 'return' or o[1] is None or not isinstance(o[1], ast.Call) or not o[1].args:
+            if o is not None and o[0] == 'raise':
+                continue
+            forced = False
+            detail.append(f'{p.pc_text()} => {p.outcome_text()[:80]}')
+            continue
+        n += 1
+        T = o[1].args[0]
+        names = [c for c in ast.walk(o[1]) if isinstance(c, ast.Call) and U(c.func) == 'fnm_from_dats']
+        same = bool(names) and len(names[0].args) > 1 and U(names[0].args[1]) == U(T)
+        empty = p.facts.get('truthy(self.logfiles)') is False
+        above = None
+        for k, v in p.pc:
+            if k.startswith('ord(') and 'self.logfiles[-1].timestamp' in k:
+                inner = k[4:-1]
+                first_is_last = inner.startswith('int(self.logfiles[-1].timestamp') or inner.startswith('self.logfiles[-1].timestamp')
+                rel_new_vs_last = ({'<': '>', '>': '<', '=': '='}[v]) if first_is_last else v
+                above = rel_new_vs_last == '>'
+        bumped = 'self.logfiles[-1].timestamp' in U(T) and any(isinstance(b, ast.BinOp) and isinstance(b.op, ast.Add) and any(isinstance(c, ast.Constant) and isinstance(c.value, (int, float)) and c.value > 0 for c in (b.left, b.right)) for b in ast.walk(T))
+        ok = same and (empty or above is True or bumped)
+        if not ok:
+            forced = False
+            detail.append(f'{p.pc_text() or "unconditional"} => timestamp {U(T)[:80]}')
+    if exclusive:
+        rr.holds('new log files are opened in exclusive mode', mod, next(iter(opens.values()))[0].node, key='exclusive')
+    elif forced and n:
+        rr.holds('new_logfile forces the timestamp that names the file strictly above the newest existing file on every path', nmod, nfn, key='forced-above')
+    else:
+        e, mode = next(iter(opens.values()))
+        rr.violated(f'a new log file is opened with mode {mode} (truncating) under a name that can equal an existing file\'s: equal or backwards timestamps overwrite it', mod, e.node,
+                    witness='; '.join(detail)[:400], key='overwrite')
+    rr.floor('returning paths of new_logfile', n, 1, nmod, nfn)
+
+
+@rule('C13.R2', 'the budget is enforced after every write (prune when the running total exceeds total_size), pruning never unlinks the newest file and re-bases the reader when it deleted something')
+def r2(rr, repo):
+    mod, wfn, wpaths = fn_paths(repo, 'write')
+    n = 0
+    for p in wpaths:
+        st = [e for e in p.events if e.kind == 'store' and e.term == 'self.logfiles_size']
+        if not st:
+            continue
+        over = None
+        for k, v in p.pc:
+            if k.startswith('ord(') and 'self.total_size' in k and 'self.logfiles_size' in k:
+                inner = k[4:-1]
+                total_first = inner.startswith('self.total_size')
+                rel_size_vs_total = ({'<': '>', '>': '<', '=': '='}[v]) if total_first else v
+                over = rel_size_vs_total == '>'
+        pr = [e for e in p.events if e.kind == 'call' and e.term == 'self.prune_logfiles']
+        if over is None:
+            rr.violated('a write updates the running total without comparing it with total_size', mod, st[0].node, witness=p.pc_text()[-200:], key='no-budget-test')
+            continue
+        n += 1
+        if over:
+            rr.ob('over budget after a write => prune_logfiles()', bool(pr) and p.events.index(pr[0]) > p.events.index(st[0]), mod, st[0].node, witness=p.pc_text()[-200:], key='prune-called')
+    rr.floor('write paths that update the running total', n, 2, mod, wfn)
+    pmod, pfn = repo.find(f'{RL}::RollLog.prune_logfiles')
+    unlinks = [c for c in q.calls_in(pfn) if U(c.func) in ('os.unlink', 'os.remove')]
+    rr.floor('unlink sites in prune_logfiles', len(unlinks), 1, pmod, pfn)
+    # the iterator over reversed(logfiles) is advanced once (the newest file) before any unlink loop, when there are files
+    nxt = [c for c in q.name_calls(pfn, 'next')]
+    itname = None
+    for st in pfn.body:
+        if isinstance(st, ast.Assign) and isinstance(st.value, ast.Call) and 'reversed(' in U(st.value):
+            itname = U(st.targets[0])
+    okn = bool(nxt) and itname is not None and all(U(c.args[0]) == itname for c in nxt) and min(c.lineno for c in nxt) < min(u.lineno for u in unlinks)
+    rr.ob('the newest file is taken off the candidate iterator (next(...)) before any deletion', okn, pmod, pfn, key='skip-newest')
+    for u in unlinks:
+        loops = [a for a in ancestors(u) if isinstance(a, ast.For)]
+        ok = bool(loops) and all(U(l.iter) == itname for l in loops)
+        rr.ob('files are unlinked only while walking the remaining (older) candidates', ok, pmod, u, key=f'unlink-in-iter|{U(u.args[0])}')
+    ev = Evaluator(repo, pmod, unroll_for=1)
+    pp = ev.run(pfn.body)
+    rr.paths += len(pp)
+    k = 0
+    for p in pp:
+        ul = [e for e in p.events if e.kind == 'call' and e.term in ('os.unlink', 'os.remove')]
+        if ul:
+            nx = [e for e in p.events if e.kind == 'call' and e.term == 'next']
+            rr.ob('on every deleting path the newest file was first taken off the candidate iterator', bool(nx) and p.events.index(nx[0]) < p.events.index(ul[0]), pmod, ul[0].node, witness=p.pc_text()[-200:], key='skip-newest-path')
+            if any(kk.startswith('eq(-1, __elem__(') and v is True for kk, v in p.facts.items()):
+                continue   # the enumerate index of a deleted (older) file is >= 1: this combination is infeasible
+            k += 1
+            rb = [e for e in p.events if e.kind == 'store' and e.term == 'self.read_idx']
+            dl = [e for e in p.events if e.kind == 'del' and 'logfiles[' in e.term]
+            rr.ob('after deleting files the list is trimmed and the reader index re-based', bool(rb) and bool(dl), pmod, ul[0].node, witness=p.pc_text()[-200:], key='rebase')
+    rr.floor('pruning paths that delete', k, 1, pmod, pfn)
+
+
+@rule('C13.R3', 'lock discipline: every store to logfiles / logfiles_size / read_idx / read_file / write_file happens under self.lock, in __init__, or in a private helper all of whose call sites are so protected')
+def r3(rr, repo):
+    mod, cls = cls_of(repo)
+    methods = {f.name: f for f in cls.body if isinstance(f, ast.FunctionDef)}
+
+    def protected_fn(fn, seen=()):
+        """all call sites self.<fn>() are under the lock / in __init__ / in a protected helper"""
+        if fn.name == '__init__':
+            return True
+        sites = [c for c in q.attr_calls(cls, fn.name) if U(c.func) == f'self.{fn.name}']
+        if not sites:
+            return False
+        for c in sites:
+            host = enclosing_function(c)
+            if q.within_with(c, 'self.lock'):
+                continue
+            if host is not None and host.name not in seen and protected_fn(host, seen + (fn.name,)):
+                continue
+            return False
+        return True
+
+    n = 0
+    for attr in STATE:
+        for st, tgt in q.stores_to_attr(cls, attr):
+            if U(tgt.value) != 'self':
+                continue
+            n += 1
+            fn = enclosing_function(st)
+            ok = fn.name == '__init__' or q.within_with(st, 'self.lock') or protected_fn(fn)
+            rr.ob(f'store to self.{attr} is protected by the lock', ok, mod, st, key=f'lock|{attr}|{qualname(st)}|{q.within_with(st, "self.lock")}')
+    rr.floor('stores to the shared reader/writer state', n, 15, mod, cls)
+    for c in q.attr_calls(cls, 'append'):
+        if U(c.func) == 'self.logfiles.append':
+            fn = enclosing_function(c)
+            rr.ob('logfiles.append is protected by the lock', q.within_with(c, 'self.lock') or protected_fn(fn), mod, c, key='lock|append')
